@@ -36,6 +36,9 @@ HISTORY = {
     "C16-8": "missed at first (values had no control characters): value alphabet now has C0/C1 controls and DEL",
     "C17-6": "quick tier cannot see it: the recursion only overflows the stack in an unoptimised build (with opt-level 2 the tail call is a loop). The thorough tier got an unoptimised build configuration with 2 MiB thread stacks for C03/C17 and inputs with thousands of repeated units between two attributes; the stack overflow aborts the harness and the driver reports the in-flight case as the VIOLATION",
     "C20-7": "missed at first: the key under test is now the two-segment path k, v and the intervening traffic includes its look-alikes ('k/v', trailing / leading empty segment, other case, other endpoint, other method)",
+    "C05-8": "missed at first (C05 only exercised the conversions; C06 caught the same change): every named option / content format is now also encoded through the message API and read off the wire with the reference parser",
+    "C07-7": "missed at first (one specific option value): new exhaustive part with every one-byte No-Response value on all four message types, plus bare requests",
+    "C07-8": "missed at first (diagnostic texts were at most 20 characters): texts now go up to 70000 bytes",
     "C04-4": "NOT detected, deliberately: the change only differs for tokens of 256..271 bytes or a TKL set directly after set_token, both outside the property's domain (token of 0-8 bytes); the demo uses a 256-byte token",
     "C04-5": "quick tier misses it by construction (the changed line only exists with the `udp` feature); the thorough tier builds the `udp` configuration and catches it",
 }
